@@ -24,6 +24,8 @@ EXPLANATION = (
     "SystemManager, Model builds its own manager; no class-level mutable state. Listing accessors are pure and return "
     "None exactly on the absent, lenient branch.")
 EXPLANATION += (" Also: Agent.get_component / __getitem__ return the entry exactly when the key is present (three-case lookup, no truthiness); add_agent / remove_agent (de)register on self.model.systems (the environment's own model); Agent.add_component / remove_component store / delete one entry under the absence / presence test.")
+EXPLANATION += (' Component pools are never sorted / reversed / shuffled in place through manager[T] or get_components(T); add_agent stores the agent before it registers its components (resident before listed).')
+EXPLANATION += (' register_component / deregister_component are called from join / leave / attach / detach only.')
 ASSUMPTIONS = ["component classes use identity equality (quantifier)", "the position component managed by spatial worlds is excluded by the property",
                "model.environment is not replaced wholesale (outside the quantifier)"]
 
@@ -354,6 +356,31 @@ def run(cx: Cx):
     if not any('-in-place' in o.key and o.key.split(':')[-1].startswith('pool-') for o in cx.violations()):
         cx.ok('R-DISC', f"no in-place reordering reaches a component pool ({n_re} sort / reverse / shuffle site(s) examined)",
               where=cx.where(reg), function=reg.qualname)
+
+    # who may list a component: joining and leaving (and, for a resident, attaching and detaching - finding F1/F2 is that this path is
+    # missing) - and nobody else.  An override that also lists the environment's OWN components puts a component of no resident
+    # agent into the listing, and its pool never empties
+    may_list = {add.qualname, rem.qualname, CORE + 'Agent.add_component', CORE + 'Agent.remove_component'}
+    n_cl = 0
+    stray = None
+    for target in (reg, dereg):
+        for k, ev in cx.effects.callers_of(target):
+            kf = prog.functions.get(k.split('#')[0])
+            if kf is None:
+                continue
+            n_cl += 1
+            roots = cx.effects.public_roots(kf)
+            if not (roots & may_list) and not all(r.startswith(CORE + 'SystemManager.') for r in roots):
+                stray = stray or (kf, ev, target)
+    if stray:
+        kf, ev, target = stray
+        cx.violation('R-DISC', kf.qualname, 'listing-changed-by-join-leave-attach-detach-only',
+                     f"{kf.qualname} calls {target.name}: components are listed when their agent joins (or they are attached to a resident) "
+                     f"and unlisted when it leaves (or they are detached) - a component listed from anywhere else belongs to no resident "
+                     f"agent of the environment", where=cx.where(kf, ev.line))
+    else:
+        cx.ok('R-DISC', f"register / deregister_component are called by join / leave only ({n_cl} call site(s))", where=cx.where(reg),
+              function=reg.qualname)
 
     # ------------------------------------------------------------ clause 4: R-ATOMIC
     check_atomic(cx, add.qualname, ['DuplicateAgentError'])
